@@ -92,4 +92,24 @@ def step (args : List String) : String :=
     | _, _, _, _, _, _, _, _ => "bad-op"
   | _ => "bad-op"
 
+/-- `admissionc <oti> <cenc> <r|z> <plain length> <transfer length>`: a real content-encoded object with `oti` as
+    override; the encoder is a library, so the TRANSFER length the implementation produced is an input of the model;
+    `FileDesc::new` must judge that length (not the plain one).  Sender of the harness: default OTI No-Code 1024/64. -/
+def stepCenc (args : List String) : String :=
+  match args with
+  | [oti, cenc, kind, plain, tl] =>
+    match oti? oti, nat? plain, nat? tl with
+    | some oti, some _, some tl =>
+      if (cenc ≠ "1" ∧ cenc ≠ "2" ∧ cenc ≠ "3") ∨ (kind ≠ "r" ∧ kind ≠ "z") ∨ ¬ tl < 2 ^ 64 then "bad-op" else
+      let cfg : Cfg := { queues := [0], complete := false,
+                         oti := { fec := .noCode, inst := 0, maxSbl := 64, esl := 1024, parity := 0, scheme := none } }
+      let obj : Obj := { transferLength := tl, oti := some oti, location := [], contentType := [], md5 := none,
+                         etag := none, groups := none, toi := .none }
+      match accepts cfg 0 obj with
+      | .error _ => "PANIC"
+      | .ok (.error _) => "ERR"
+      | .ok (.ok a) => s!"ok z={zOf a.oti}"
+    | _, _, _ => "bad-op"
+  | _ => "bad-op"
+
 end Flute.Drv.Admit
